@@ -6,7 +6,7 @@ patch file) to a PRIVATE copy of the library, regenerates coq/gen with setup.sh'
 the bridge file the edit concerns, restores the library.
 
     VERIF_REPO=/path/to/private/libcbor tools/effects_mutation.py [edit-id-prefix ...]
-    (VERIF_HARMLESS=<dir containing harm1/ harm2/> for the ser-R* patch edits; default /tmp)
+    (VERIF_HARMLESS=<dir containing out_A/ .. out_I/> for the patch edits; default seeded/harmless)
 
 P = behaviour-preserving rewrite: the bridge must still pass (or the function degrade to
 translator_unsupported); M = meaning-changing edit: the bridge lemma of that function must fail.
@@ -177,7 +177,7 @@ LOAD_IFS = """    if (decode_result.status == CBOR_DECODER_ERROR) {
     }
 """
 SZ = "src/cbor/serialization.c"
-HARM = os.environ.get("VERIF_HARMLESS", "/tmp")     # where the independent agents' harmless patches live
+HARM = os.environ.get("VERIF_HARMLESS", os.path.join(os.path.dirname(os.path.dirname(os.path.abspath(__file__))), "seeded", "harmless"))     # the independent agents' harmless patches (stored copies)
 ARR_LOOP = """  for (size_t i = 0; i < size; i++) {
     size_t item_written =
         cbor_serialize(*(handle++), buffer + written, buffer_size - written);
@@ -375,7 +375,7 @@ EDITS = [
                    (CL, "  if (source_size == 0) {", "  if (!source_size) {", 1)]),
  ("load-P4", "P", [(CL, LOAD_SWITCH, LOAD_IFS, 1)]),
  # constructors through their thin wrappers (inlined from their current bodies) and back
- ("load-RH4", "P", [("PATCH", "/tmp/harm3/out_H/RH-4/patch.diff", "", 0)], ["load"]),   # third round: false alarm before wrappers were inlined
+ ("load-RH4", "P", [("PATCH", HARM + "/out_H/RH-4/patch.diff", "", 0)], ["load"]),   # third round: false alarm before wrappers were inlined
  ("load-P5", "P", [(BC, "  cbor_item_t* res = cbor_new_float2();\n  CHECK_RES(ctx, res);\n  cbor_set_float2(res, value);\n", "  cbor_item_t* res = cbor_build_float2(value);\n  CHECK_RES(ctx, res);\n", 1),
                    (BC, "  cbor_item_t* res = cbor_new_float8();\n  CHECK_RES(ctx, res);\n  cbor_set_float8(res, value);\n  _cbor_builder_append(res, ctx);", "  cbor_item_t* res = cbor_build_float8(value);\n  if (res != NULL) {\n    _cbor_builder_append(res, ctx);\n    return;\n  }\n  ctx->creation_failed = true;", 1)]),
  ("load-P6", "P", [(BC, "  cbor_item_t* res = cbor_new_int8();\n  CHECK_RES(ctx, res);\n  cbor_mark_uint(res);\n  cbor_set_uint8(res, value);\n", "  cbor_item_t* res = cbor_build_uint8(value);\n  CHECK_RES(ctx, res);\n", 1),
@@ -384,7 +384,7 @@ EDITS = [
  ("load-M10", "M", [(BC, "  cbor_item_t* res = cbor_new_float2();\n  CHECK_RES(ctx, res);\n  cbor_set_float2(res, value);\n", "  cbor_item_t* res = cbor_build_float4(value);\n  CHECK_RES(ctx, res);\n", 1)]),   # the wrong wrapper
  ("load-M11", "M", [(BC, "  cbor_item_t* res = cbor_new_int16();\n  CHECK_RES(ctx, res);\n  cbor_mark_negint(res);\n  cbor_set_uint16(res, value);\n", "  cbor_item_t* res = cbor_build_uint16(value);\n  CHECK_RES(ctx, res);\n", 1)]),   # negative integer built unsigned
  ("load-M12", "M", [("src/cbor/floats_ctrls.c", "  cbor_item_t* item = cbor_new_float2();\n  _CBOR_NOTNULL(item);\n  cbor_set_float2(item, value);", "  cbor_item_t* item = cbor_new_float2();\n  _CBOR_NOTNULL(item);", 1),
-                    ("PATCH", "/tmp/harm3/out_H/RH-4/patch.diff", "", 0)], ["load"]),   # an edit INSIDE the wrapper is seen through the inlining
+                    ("PATCH", HARM + "/out_H/RH-4/patch.diff", "", 0)], ["load"]),   # an edit INSIDE the wrapper is seen through the inlining
  ("load-M1", "M", [(CL, "          result->error.code = CBOR_ERR_NOTENOUGHDATA;\n          goto error;", "          result->error.code = CBOR_ERR_MALFORMATED;\n          goto error;", 1)]),
  ("load-M2", "M", [(CL, "  result->error.position = result->read;", "  result->error.position = result->read + 1;", 1)]),
  ("load-M3", "M", [(CL, "    cbor_decref(&stack.top->item);\n    _cbor_stack_pop(&stack);", "    _cbor_stack_pop(&stack);\n    cbor_decref(&stack.top->item);", 1)]),
@@ -396,9 +396,9 @@ EDITS = [
  ("load-M8", "M", [(CL, "    if (source_size > result->read) { /* Check for overflows */", "    if (source_size >= result->read) { /* Check for overflows */", 1)]),
  ("load-M9", "M", [(CL, "    cbor_decref(&stack.top->item);\n    _cbor_stack_pop(&stack);", "    _cbor_stack_pop(&stack);", 1)]),
  # ---------------- serialization.c ----------------
- ("ser-RC1", "P", [("PATCH", HARM + "/harm1/out_C/RC-1/patch.diff", "", 0)]),
+ ("ser-RC1", "P", [("PATCH", HARM + "/out_C/RC-1/patch.diff", "", 0)]),
  ("ser-RC8", "P", [("PATCH", os.path.join(VERIF, "tools", "effects_patches", "RC-8.rebased.diff"), "", 0)]),   # rebased over 60b6b56
- ("ser-RF5", "P", [("PATCH", HARM + "/harm2/out_F/RF-5/patch.diff", "", 0)]),
+ ("ser-RF5", "P", [("PATCH", HARM + "/out_F/RF-5/patch.diff", "", 0)]),
  ("ser-RF6", "P", [("PATCH", os.path.join(VERIF, "tools", "effects_patches", "RF-6.rebased.diff"), "", 0)]),   # rebased over 60b6b56 (the helper keeps the length > 0 guard)
  ("ser-P1", "P", [(SZ, ARR_LOOP, """  size_t i = 0;
   while (i != size) {
@@ -475,8 +475,8 @@ EDITS = [
  ("decref-M7", "M", [(CM, "        if (item->metadata.tag_metadata.tagged_item != NULL)\n          cbor_decref(&item->metadata.tag_metadata.tagged_item);\n        _cbor_free(item->data);", "        _cbor_free(item->data);\n        if (item->metadata.tag_metadata.tagged_item != NULL)\n          cbor_decref(&item->metadata.tag_metadata.tagged_item);", 1)]),
  ("decref-M8", "M", [(CM, "      case CBOR_TYPE_BYTESTRING: {\n        if (cbor_bytestring_is_definite(item)) {\n          _cbor_free(item->data);", "      case CBOR_TYPE_BYTESTRING: {\n        if (cbor_bytestring_is_definite(item)) {", 1)]),
  # ---------------- cbor_copy (cbor.c) ----------------
- ("copy-RB8", "P", [("PATCH", HARM + "/harm1/out_B/RB-8/patch.diff", "", 0)]),
- ("copy-RF4", "P", [("PATCH", HARM + "/harm2/out_F/RF-4/patch.diff", "", 0)]),      # degrades: attach through a type-switching helper
+ ("copy-RB8", "P", [("PATCH", HARM + "/out_B/RB-8/patch.diff", "", 0)]),
+ ("copy-RF4", "P", [("PATCH", HARM + "/out_F/RF-4/patch.diff", "", 0)]),      # degrades: attach through a type-switching helper
  ("copy-P1", "P", [(CL, CP_ARR, """      const size_t n = cbor_array_size(item);
       size_t i = 0;
       while (i != n) {
@@ -524,7 +524,7 @@ EDITS = [
  ("copy-M13", "M", [(CL, "      return _cbor_copy_int(item, true);", "      return _cbor_copy_int(item, false);", 1)]),
 ]
 
-HARM3 = "/tmp/harm3/out_%s/R%s-%d/patch.diff"
+HARM3 = HARM + "/out_%s/R%s-%d/patch.diff"
 # third round of independent harmless refactorings: every patch that touches a file the plan translator reads;
 # all five groups are regenerated, the bridges of the changed files must pass (or the function degrade)
 EDITS += [("h3-R%s%d" % (c, i), "P", [("PATCH", HARM3 % (c, c, i), "", 0)], ALLG)
